@@ -80,6 +80,9 @@ func scenariosFor(prop string) []scn {
 		both(flowParams{Sources: 1, Records: 5, Batch: 5, Dests: 1, AckMenu: onlyOK, Procs: []procParam{{ID: "p1", Kinds: []string{"p", "p", "f", "p", "p"}}, {ID: "p2", Kinds: []string{"p", "f", "p", "f", "p"}}}}, 1, 2)
 		// the DLQ is off (it refuses every rejection and hands the reason back); the reason wraps io.EOF
 		both(flowParams{Sources: 1, Records: 3, Batch: 1, Dests: 1, AckMenu: onlyOK, Window: 1, Thresh: 0, Procs: []procParam{{ID: "pp", Kinds: []string{"p", "eoferr", "p"}}}}, 1, 2)
+		// a store that is slow for one commit (7s) while later acks arrive: no later flush may overtake it
+		both(flowParams{Sources: 1, Records: 3, Batch: 1, Dests: 1, AckMenu: onlyOK, Bundle: 2, CommitDelaysMs: []int{0, 7000}}, 1, 2)
+		both(flowParams{Sources: 1, Records: 3, Batch: 1, Dests: 1, AckMenu: onlyOK, CommitDelaysMs: []int{7000, 0, 7000}}, 1, 2)
 		// a source plugin that is slow to take acks off its stream while later flushes release more acks
 		both(flowParams{Sources: 1, Records: 4, Batch: 1, Dests: 1, AckMenu: onlyOK, Bundle: 2, LateAckRecv: true}, 1, 2)
 		both(flowParams{Sources: 1, Records: 4, Batch: 2, Dests: 1, AckMenu: onlyOK, LateCommit: true, LateAckRecv: true}, 1, 2)
@@ -195,6 +198,9 @@ func scenariosFor(prop string) []scn {
 		both(flowParams{Sources: 1, Records: 3, Batch: 1, Dests: 1, AckMenu: []string{"ok", "defer"}, Stop: "stopwait"}, 2, 4)
 		both(flowParams{Sources: 1, Records: 3, Batch: 1, Dests: 1, AckMenu: onlyOK, Stop: "stopwait", Procs: []procParam{{ID: "pp", Workers: 1, Gate: true, Kinds: []string{"p", "f", "p"}}}}, 2, 3)
 		both(flowParams{Sources: 1, Records: 3, Batch: 1, Dests: 1, AckMenu: onlyOK, Stop: "stopwait", Bundle: 2}, 2, 3)
+		// a store that needs 2.5s per commit (slow, but responding) while the pipeline is stopped gracefully
+		both(flowParams{Sources: 1, Records: 2, Batch: 1, Dests: 1, AckMenu: onlyOK, Stop: "stopwait", Bundle: 1, CommitDelaysMs: []int{0, 2500, 2500, 2500, 2500}}, 1, 2)
+		both(flowParams{Sources: 1, Records: 3, Batch: 1, Dests: 1, AckMenu: onlyOK, Stop: "stopwait", CommitDelaysMs: []int{0, 2500, 2500, 2500, 2500}}, 1, 2)
 		// system shutdown: StopAll (a graceful stop that carries a reason) followed by Wait
 		both(flowParams{Sources: 1, Records: 3, Batch: 1, Dests: 1, AckMenu: onlyOK, Stop: "stopall"}, 2, 3)
 		both(flowParams{Sources: 1, Records: 2, Batch: 1, Dests: 2, AckMenu: []string{"ok", "defer"}, Stop: "stopall"}, 2, 3)
